@@ -171,6 +171,15 @@ def apply_fault(recs, fault):
         import random as _r
         rr = _r.Random(fault[2])
         lost = set(a for a in atoms if rr.random() < fault[1])
+    elif kind == 'F14':         # any subset of the records of one residue (starts at a, bit mask)
+        _, a, mask = fault
+        lost = set(atoms[a + k] for k in range(mask.bit_length()) if mask >> k & 1)
+    elif kind == 'F15':         # every record with one of the given atom names lost, file-wide
+        names = set(fault[1])
+        lost = set(a for a in atoms if recs[a][1][12:16].strip() in names)
+    elif kind == 'F16':         # only records with the given atom names survive (CA-only, backbone-only ...)
+        names = set(fault[1])
+        lost = set(a for a in atoms if recs[a][1][12:16].strip() not in names)
     elif kind == 'F0':
         lost = set()
     else:
@@ -199,6 +208,55 @@ def residue_bounds(recs):
         n += 1
     bounds.append(n)
     return bounds
+
+
+SURVIVOR_SETS = (['CA'], ['N', 'CA', 'C'], ['N', 'CA', 'C', 'O'], ['N', 'CA', 'C', 'O', 'OXT'],
+                 ['N', 'CA', 'C', 'O', 'CB'], ['N', 'CA', 'C', 'O', 'OXT', 'CB'], ['CA', 'CB'])
+
+
+def name_faults(recs, tier, rng):
+    """F15/F16: systematic, name-keyed losses (a filter or converter upstream
+    that drops every record of some atom names: stripped OXT, CA-only and
+    backbone-only models, side chains without backbone)."""
+    atoms = atom_indices(recs)
+    names = sorted(set(recs[a][1][12:16].strip() for a in atoms))
+    out = [('F15', [n]) for n in names]
+    pairs = [('F15', [a, b]) for i, a in enumerate(names) for b in names[i + 1:]]
+    if tier.get('f15') == 'all':
+        out += pairs
+    elif tier.get('f15'):
+        out += rng.sample(pairs, min(len(pairs), tier['f15']))
+    bb = ['N', 'CA', 'C', 'O', 'OXT']
+    out += [('F15', sorted(set(c))) for c in (bb, bb[:4], ['N', 'CA', 'C'], ['C', 'O', 'OXT'], ['N', 'C'],
+                                               ['CA', 'CB'], ['O', 'OXT'], ['N', 'O'])]
+    have = set(names)
+    for sv in SURVIVOR_SETS:
+        if have & set(sv):
+            out.append(('F16', list(sv)))
+    return out
+
+
+def subset_faults(recs, tier, rng, bounds):
+    """F14: subsets of the records of ONE residue.  Exhaustive (every one of
+    the 2^n - 2 proper non-empty subsets) for residues of at most
+    tier['f14_exh'] records, a seeded sample of tier['f14'] masks otherwise."""
+    out = []
+    res = [(bounds[i], bounds[i + 1]) for i in range(len(bounds) - 1)]
+    exh = tier.get('f14_exh', 0)
+    for a, b in res:
+        n = b - a
+        if n < 2:
+            continue
+        total = (1 << n) - 2
+        if n <= exh:
+            out += [('F14', a, m) for m in range(1, total + 1)]
+        elif tier.get('f14'):
+            k = min(total, tier['f14'])
+            seen = set()
+            while len(seen) < k:
+                seen.add(rng.randrange(1, total + 1))
+            out += [('F14', a, m) for m in sorted(seen)]
+    return out
 
 
 def enumerate_faults(natoms, tier, rng, bounds=None):
